@@ -296,6 +296,12 @@ def text_mutations(g, m):
     lines = t.split('\n')
     out = []
     out.append(('not_ini', 'potential for Al\n' + t.replace('[', '').replace(']', '')))
+    if m.get('kind') == 'pair' and '[Pair]\n' in t:
+        # a function called with the right number of arguments by one entry and with the wrong number inside a formula used by a later entry
+        # (the first, correct, use is tabulated first)
+        t2 = t.replace('[Pair]\n', '[Pair]\nQa-Qa : as.buck 1000.0 0.3 32.0\nQa-Qb : soft_q 1000.0\n', 1)
+        t2 = t2.replace('[Potential-Form]\n', '[Potential-Form]\nsoft_q(r, A) = as.buck(r, A, 0.3)\n', 1) if '[Potential-Form]\n' in t2 else t2 + '\n[Potential-Form]\nsoft_q(r, A) = as.buck(r, A, 0.3)\n'
+        out.append(('wrong_arity_after_right', t2))
     out.append(('no_section_header', 'target : LAMMPS\n' + t.split('\n', 1)[1]))
     pl = [i for i, l in enumerate(lines) if ' : ' in l and (l.split(' : ')[1].startswith('as.') or '(' in l)]
     if pl:
